@@ -38,6 +38,15 @@ def _with_common_options(f):
             params = inspect.signature(fn).parameters
         except (TypeError, ValueError):
             return call
+        # integer mode lists: sometimes one entry in its negative (count-from-the-end) spelling
+        nd = next((v.ndim for k, v in kw.items() if k in ("tensor", "input_tensor", "X", "data_tensor") and isinstance(v, np.ndarray)), None)
+        if nd:
+            for k in ("modes", "fixed_modes", "nn_modes", "row_modes", "column_modes"):
+                v = kw.get(k)
+                if isinstance(v, (list, tuple)) and v and all(isinstance(m, int) and 0 <= m < nd for m in v):
+                    if g.flag(0.3):
+                        i = g.int(0, len(v) - 1)
+                        kw[k] = type(v)(m - nd if j == i else m for j, m in enumerate(v))
         accepts = "verbose" in params or any(q.kind is inspect.Parameter.VAR_KEYWORD and q.name == "opts" for q in params.values())
         if accepts and "verbose" not in kw:  # `**opts` closures build the estimator classes, which all take `verbose`
             if g.flag(0.1):
